@@ -6,7 +6,8 @@ From Coq Require Import Permutation.
 From Clikit Require Import Base.Prelude Base.Res Model.Conv Model.Format Model.Parser Model.Resolver Model.Run
      Model.Tokenizer Model.Gate Model.Switches Proofs.ResolverLemmas Proofs.SwitchesLemmas
      Proofs.HelpSamePageLemmas Proofs.HelpRunLemmas Proofs.SwitchesHelpLemmas Proofs.HelpAnywhereLemmas
-     Proofs.HelpAnywhereErrLemmas Proofs.HelpAnywhereVersionLemmas Model.Question Model.QuestionText Proofs.SwitchesQuestionLemmas.
+     Proofs.HelpAnywhereErrLemmas Proofs.HelpAnywhereVersionLemmas Proofs.HelpAnywhereTotalLemmas
+     Proofs.HelpNoPathLemmas Model.Question Model.QuestionText Proofs.SwitchesQuestionLemmas.
 
 (* Placement independence: the settings depend only on which switches are among the option tokens. *)
 Theorem settings_perm : forall debug l l', Permutation l l' -> io_settings debug l = io_settings debug l'.
@@ -170,26 +171,26 @@ Theorem help_switch_after_path_prints_that_commands_help : forall cfg a debug pa
   (match path with t :: _ => str_eqb t S_help = false | [] => True end) -> sw = T_help \/ sw = T_h ->
   walk (named_of (ap_cmds a)) None path = Ok (Some (b, p)) -> defaults_of (b_subs b) = [] ->
   sm_action (run_summary debug a (path ++ [sw])) =
-    match parse (b_fmt b) true path with Ok _ => AHelpCmd p | Err k => AHelpFail k end.
+    match help_lenient (b_fmt b) path with Ok _ => AHelpCmd p | Err k => AHelpFail k end.
 Proof. intros cfg a debug path sw b p Hb Hc Hp Hn Hh Hs. apply (help_switch_page cfg); assumption. Qed.
 Print Assumptions help_switch_after_path_prints_that_commands_help.
-Theorem help_switch_after_path_status_zero : forall cfg a debug path sw b p x,
+Theorem help_switch_after_path_status_zero : forall cfg a debug path sw b p,
   build_app cfg = Ok a -> default_help_config cfg = true -> forallb lead_ok path = true -> path <> [] ->
   (match path with t :: _ => str_eqb t S_help = false | [] => True end) -> sw = T_help \/ sw = T_h ->
   walk (named_of (ap_cmds a)) None path = Ok (Some (b, p)) -> defaults_of (b_subs b) = [] ->
-  parse (b_fmt b) true path = Ok x ->
+  help_lenient (b_fmt b) path = Ok tt ->
   sm_action (run_summary debug a (path ++ [sw])) = AHelpCmd p /\ prints_page (sm_action (run_summary debug a (path ++ [sw]))) = true.
-Proof. intros cfg a debug path sw b p x Hb Hc Hp Hn Hh Hs. apply (help_switch_page_ok cfg); assumption. Qed.
+Proof. intros cfg a debug path sw b p Hb Hc Hp Hn Hh Hs. apply (help_switch_page_ok cfg); assumption. Qed.
 Print Assumptions help_switch_after_path_status_zero.
-Theorem help_switch_after_path_default_sub_command : forall cfg a debug path sw b p ds1 d ds2 x y,
+Theorem help_switch_after_path_default_sub_command : forall cfg a debug path sw b p ds1 d ds2 x,
   build_app cfg = Ok a -> default_help_config cfg = true -> forallb lead_ok path = true -> path <> [] ->
   (match path with t :: _ => str_eqb t S_help = false | [] => True end) -> sw = T_help \/ sw = T_h ->
   walk (named_of (ap_cmds a)) None path = Ok (Some (b, p)) ->
   defaults_of (b_subs b) = ds1 ++ d :: ds2 ->
-  Forall (fun c => parse (b_fmt c) (b_lenient c) path = Err CannotParse) ds1 ->
-  parse (b_fmt d) (b_lenient d) path = Ok x -> parse (b_fmt d) true path = Ok y ->
+  Forall (unfit path) ds1 ->
+  parse (b_fmt d) (b_lenient d) path = Ok x -> help_lenient (b_fmt d) path = Ok tt ->
   sm_action (run_summary debug a (path ++ [sw])) = AHelpCmd (p ++ [b_name d]).
-Proof. intros cfg a debug path sw b p ds1 d ds2 x y Hb Hc Hp Hn Hh Hs. apply (help_switch_page_default cfg); assumption. Qed.
+Proof. intros cfg a debug path sw b p ds1 d ds2 x Hb Hc Hp Hn Hh Hs. apply (help_switch_page_default cfg); assumption. Qed.
 Print Assumptions help_switch_after_path_default_sub_command.
 
 (* ---- The help switch ANYWHERE among the tokens after the command path and before "--" (fourth session). ----
@@ -204,26 +205,39 @@ Print Assumptions help_switch_after_path_default_sub_command.
    RAW option tokens and parses the whole line leniently with the format of the command "help" (help_line_parse); the
    leading plain tokens make its argument "command" set whatever follows (the proof: the token loop over arbitrary
    tokens keeps the argument scratch map a placement of the positionals read, HelpAnywhereLemmas.loop_absorbs), so
-   HelpTextHandler asks HelpResolver for the command of the line (help_target) and prints its page.  Exhaustively:
+   HelpTextHandler asks HelpResolver for the command of the line (help_target) and prints its page.  Exhaustively
+   (help_switch_anywhere_shows_a_page_or_why_not):
      - the help command's own lenient parse fails (only a value error of a GLOBAL option can do that): error report;
      - the version switch was given as well - parsed from the line ("-V", "--version", also grouped "-qV" or "--V":
        Examples) or as a raw option token: name and version (the PRE_HANDLE listener), status 0, no handler;
      - otherwise: the page of help_target (path ++ rest), or the report of why there is none.
    help_target walks the leading tokens to the command b (name path p; C03 walk_deepest) and takes b's first default
    sub-command that parses THE LINE AS IT STANDS under its own leniency, else the first one, else b; the command picked
-   is then parsed leniently, and only a value error can make that fail.  So:
-     - b without default sub-commands: p's page, exactly when b's lenient parse of the line succeeds
-       (help_switch_anywhere_prints_that_commands_help, _status_zero);
-     - with default sub-commands: the first one parsing the line, else the first (..._default_sub_command,
-       ..._first_default_when_none_parses).
-   NOT true, and proved false below with witnesses replayed on the real code (notes/w2-c09c03.md):
-     - "status 0 for every valid line with the switch inserted": help_switch_between_option_and_value_fails_refuted -
-       "cmd --name foo a" runs the handler, "cmd --name --help foo a" ends in a ValueError report (the switch takes the
-       place of the option's value, "foo" and "a" move one argument to the right, "a" is no integer).  The real code
-       does the same (status 1): a defect against the property text, proposed-fixes/help-switch-value-error.*;
-     - "the page is that of the command the line without the switch runs": help_switch_changes_the_default_refuted - with
-       two default sub-commands the probe sees another line (C03's options_after_the_path_change_the_default_refuted
-       for the help switch); by design of "first parsable default": a reading, not a defect. *)
+   is then parsed leniently.
+
+   SINCE FIX 488171f (found by this development: help_switch_between_option_and_value_fails_before_the_repair) neither
+   step lets a VALUE error escape: a default sub-command whose probe meets a value that does not convert counts as "does
+   not parse the line" (help_pick_default), and the lenient parse of the command picked is only asked whether it ends in
+   something else than a value error (help_lenient).  A lenient parse of a well-formed format cannot (C02), so for
+   configurations of constructed objects (cfg_wf: every argument and option in C07's normal form) the page is printed for
+   EVERY such line:
+     - help_switch_anywhere_prints_the_page: the page of p, or of p ++ [d] for the default sub-command d chosen by
+       help_choice (first one parsing the line, else the first one) - the only other outcomes are the two above (value
+       error of the help command's own parse; version).  For commands with default sub-commands one side condition is
+       left, probes_quietly: no default sub-command probed STRICTLY before the chosen one meets an unknown option
+       (NoSuchOptionException leaves DefaultResolver's and HelpResolver's probe at once - C03 default_choice_other_error_leaves;
+       lenient default sub-commands never raise it; necessity: Example anywhere_strict_default_unknown_option);
+     - help_switch_anywhere_closed_form: no token spelling the version option, the help command's parse not failing:
+       the action IS AHelpCmd of that command - "prints that command's help, status 0, no handler";
+     - help_switch_inserted_at_any_position: the same for a line l1 ++ sw :: l2 with the switch at ANY position before
+       the first "--" - between an option and its value included.  Nothing is asked of the line without the switch
+       (it need not even be valid).
+   The general statements without cfg_wf stay: help_switch_anywhere_prints_that_commands_help (the page exactly when
+   help_lenient succeeds), _status_zero, _default_sub_command, _first_default_when_none_parses.
+   Still NOT true, with a witness replayed on the real code: "the page is that of the command the line without the
+   switch runs" - help_switch_changes_the_default_refuted (two default sub-commands; C03's
+   options_after_the_path_change_the_default_refuted for the help switch; by design of "first parsable default": a
+   reading, not a defect). *)
 Theorem every_line_is_a_path_and_a_rest : forall toks, exists path rest,
   toks = path ++ rest /\ forallb lead_ok path = true /\ starts_stopped rest = true /\ path = leading toks.
 Proof. exact line_decomposes. Qed.
@@ -253,28 +267,28 @@ Theorem help_switch_anywhere_prints_that_commands_help : forall cfg a debug path
   wants_version (option_tokens rest) = false ->
   walk (named_of (ap_cmds a)) None path = Ok (Some (b, p)) -> defaults_of (b_subs b) = [] ->
   sm_action (run_summary debug a (path ++ rest)) =
-    match parse (b_fmt b) true (path ++ rest) with Ok _ => AHelpCmd p | Err k => AHelpFail k end.
+    match help_lenient (b_fmt b) (path ++ rest) with Ok _ => AHelpCmd p | Err k => AHelpFail k end.
 Proof.
   intros cfg a debug path rest sw fx x b p Hb Hc Hp Hn Hh Hs Hin Hst Hpa Hv1 Hv2 Hw Hd.
   apply (help_anywhere_that_command cfg a debug path rest Hb Hc Hp Hn Hh (wants_help_in sw _ Hs Hin) fx x Hpa Hv1 Hv2 Hst b p Hw Hd).
 Qed.
 Print Assumptions help_switch_anywhere_prints_that_commands_help.
-Theorem help_switch_anywhere_status_zero : forall cfg a debug path rest sw fx x b p y,
+Theorem help_switch_anywhere_status_zero : forall cfg a debug path rest sw fx x b p,
   build_app cfg = Ok a -> default_help_config cfg = true -> forallb lead_ok path = true -> path <> [] ->
   (match path with t :: _ => str_eqb t S_help = false | [] => True end) ->
   sw = T_help \/ sw = T_h -> In sw (option_tokens rest) -> starts_stopped rest = true ->
   help_line_parse a (path ++ rest) = Ok (fx, x) -> args_is_option_set fx x S_version = false ->
   wants_version (option_tokens rest) = false ->
   walk (named_of (ap_cmds a)) None path = Ok (Some (b, p)) -> defaults_of (b_subs b) = [] ->
-  parse (b_fmt b) true (path ++ rest) = Ok y ->
+  help_lenient (b_fmt b) (path ++ rest) = Ok tt ->
   sm_action (run_summary debug a (path ++ rest)) = AHelpCmd p /\
   prints_page (sm_action (run_summary debug a (path ++ rest))) = true.
 Proof.
-  intros cfg a debug path rest sw fx x b p y Hb Hc Hp Hn Hh Hs Hin Hst Hpa Hv1 Hv2 Hw Hd Hy.
-  apply (help_anywhere_that_command_ok cfg a debug path rest Hb Hc Hp Hn Hh (wants_help_in sw _ Hs Hin) fx x Hpa Hv1 Hv2 Hst b p Hw y Hd Hy).
+  intros cfg a debug path rest sw fx x b p Hb Hc Hp Hn Hh Hs Hin Hst Hpa Hv1 Hv2 Hw Hd Hy.
+  apply (help_anywhere_that_command_ok cfg a debug path rest Hb Hc Hp Hn Hh (wants_help_in sw _ Hs Hin) fx x Hpa Hv1 Hv2 Hst b p Hw Hd Hy).
 Qed.
 Print Assumptions help_switch_anywhere_status_zero.
-Theorem help_switch_anywhere_default_sub_command : forall cfg a debug path rest sw fx x b p ds1 d ds2 y z,
+Theorem help_switch_anywhere_default_sub_command : forall cfg a debug path rest sw fx x b p ds1 d ds2 y,
   build_app cfg = Ok a -> default_help_config cfg = true -> forallb lead_ok path = true -> path <> [] ->
   (match path with t :: _ => str_eqb t S_help = false | [] => True end) ->
   sw = T_help \/ sw = T_h -> In sw (option_tokens rest) -> starts_stopped rest = true ->
@@ -282,15 +296,15 @@ Theorem help_switch_anywhere_default_sub_command : forall cfg a debug path rest 
   wants_version (option_tokens rest) = false ->
   walk (named_of (ap_cmds a)) None path = Ok (Some (b, p)) ->
   defaults_of (b_subs b) = ds1 ++ d :: ds2 ->
-  Forall (fun c => parse (b_fmt c) (b_lenient c) (path ++ rest) = Err CannotParse) ds1 ->
-  parse (b_fmt d) (b_lenient d) (path ++ rest) = Ok y -> parse (b_fmt d) true (path ++ rest) = Ok z ->
+  Forall (unfit (path ++ rest)) ds1 ->
+  parse (b_fmt d) (b_lenient d) (path ++ rest) = Ok y -> help_lenient (b_fmt d) (path ++ rest) = Ok tt ->
   sm_action (run_summary debug a (path ++ rest)) = AHelpCmd (p ++ [b_name d]).
 Proof.
-  intros cfg a debug path rest sw fx x b p ds1 d ds2 y z Hb Hc Hp Hn Hh Hs Hin Hst Hpa Hv1 Hv2 Hw Hd H1 H2 H3.
-  apply (help_anywhere_default cfg a debug path rest Hb Hc Hp Hn Hh (wants_help_in sw _ Hs Hin) fx x Hpa Hv1 Hv2 Hst b p Hw ds1 d ds2 y z Hd H1 H2 H3).
+  intros cfg a debug path rest sw fx x b p ds1 d ds2 y Hb Hc Hp Hn Hh Hs Hin Hst Hpa Hv1 Hv2 Hw Hd H1 H2 H3.
+  apply (help_anywhere_default cfg a debug path rest Hb Hc Hp Hn Hh (wants_help_in sw _ Hs Hin) fx x Hpa Hv1 Hv2 Hst b p Hw ds1 d ds2 y Hd H1 H2 H3).
 Qed.
 Print Assumptions help_switch_anywhere_default_sub_command.
-Theorem help_switch_anywhere_first_default_when_none_parses : forall cfg a debug path rest sw fx x b p d ds z,
+Theorem help_switch_anywhere_first_default_when_none_parses : forall cfg a debug path rest sw fx x b p d ds,
   build_app cfg = Ok a -> default_help_config cfg = true -> forallb lead_ok path = true -> path <> [] ->
   (match path with t :: _ => str_eqb t S_help = false | [] => True end) ->
   sw = T_help \/ sw = T_h -> In sw (option_tokens rest) -> starts_stopped rest = true ->
@@ -298,28 +312,26 @@ Theorem help_switch_anywhere_first_default_when_none_parses : forall cfg a debug
   wants_version (option_tokens rest) = false ->
   walk (named_of (ap_cmds a)) None path = Ok (Some (b, p)) ->
   defaults_of (b_subs b) = d :: ds ->
-  Forall (fun c => parse (b_fmt c) (b_lenient c) (path ++ rest) = Err CannotParse) (d :: ds) ->
-  parse (b_fmt d) true (path ++ rest) = Ok z ->
+  Forall (unfit (path ++ rest)) (d :: ds) -> help_lenient (b_fmt d) (path ++ rest) = Ok tt ->
   sm_action (run_summary debug a (path ++ rest)) = AHelpCmd (p ++ [b_name d]).
 Proof.
-  intros cfg a debug path rest sw fx x b p d ds z Hb Hc Hp Hn Hh Hs Hin Hst Hpa Hv1 Hv2 Hw Hd H1 H3.
-  apply (help_anywhere_default_none cfg a debug path rest Hb Hc Hp Hn Hh (wants_help_in sw _ Hs Hin) fx x Hpa Hv1 Hv2 Hst b p Hw d ds z Hd H1 H3).
+  intros cfg a debug path rest sw fx x b p d ds Hb Hc Hp Hn Hh Hs Hin Hst Hpa Hv1 Hv2 Hw Hd H1 H3.
+  apply (help_anywhere_default_none cfg a debug path rest Hb Hc Hp Hn Hh (wants_help_in sw _ Hs Hin) fx x Hpa Hv1 Hv2 Hst b p Hw d ds Hd H1 H3).
 Qed.
 Print Assumptions help_switch_anywhere_first_default_when_none_parses.
 
-(* The two semantic hypotheses of the theorems above, characterised.
+(* The side conditions, characterised.
    (1) The help command's own lenient parse can only fail with a VALUE error, when the options its format lists are
-   well-formed objects (help_options_ok: a multi-valued option requires a value, the default of an option that does not
-   require one converts - what Option's constructor guarantees).  Only a typed GLOBAL option can cause it
-   (Example anywhere_typed_global_option: "--level=x -h"); DefaultApplicationConfig's seven options cannot.
+   well-formed objects (help_options_ok; follows from cfg_wf: well_formed_configuration).  Only a typed GLOBAL option can
+   cause it (Example anywhere_typed_global_option: "--level=x -h"); DefaultApplicationConfig's seven options cannot.
    (2) "The parse does not set the version option" has a syntactic criterion, for configurations whose global options
    include the version option as DefaultApplicationConfig defines it (defines_version: long name "version", short name
    "V"): no option token of the line spells it - no token "--version..." / "--V...", no single-dash token holding the
    letter V (no_version_spelling).  The parser files an option under the name it was FOUND by, so nothing else can set it,
-   wherever the lenient parse stops (Proofs/HelpAnywhereVersionLemmas.v: an invariant on the keys of the option scratch
-   map over arbitrary tokens).
-   With both: help_switch_anywhere_closed_form - for every such line the run prints the page of that command exactly when
-   the command's lenient parse of the line succeeds. *)
+   wherever the lenient parse stops (Proofs/HelpAnywhereVersionLemmas.v).
+   (3) help_lenient never fails on the formats of a configuration of constructed objects, and its probe meets only
+   refusals, value errors and unknown options (well_formed_configuration: every format of the tree is fmt_inv with
+   well-formed listed options). *)
 Theorem help_parse_fails_only_with_a_value_error : forall cfg a toks k,
   build_app cfg = Ok a -> default_help_config cfg = true -> help_options_ok a = true ->
   help_line_parse a toks = Err k -> k = ValueError.
@@ -331,23 +343,120 @@ Theorem help_parse_sets_version_only_when_spelled : forall cfg a toks fx x,
   args_is_option_set fx x S_version = false.
 Proof. exact help_line_version_not_set. Qed.
 Print Assumptions help_parse_sets_version_only_when_spelled.
-Theorem help_switch_anywhere_closed_form : forall cfg a debug path rest sw b p,
-  build_app cfg = Ok a -> default_help_config cfg = true -> defines_version cfg = true ->
+Theorem well_formed_configuration : forall cfg a, build_app cfg = Ok a -> cfg_wf cfg = true ->
+  Forall (tree_ok good) (ap_cmds a) /\
+  (forall f toks, good f -> help_lenient f toks = Ok tt) /\
+  (default_help_config cfg = true -> help_options_ok a = true).
+Proof.
+  intros cfg a Hb Hw. split; [exact (build_app_good cfg a Hb Hw)|]. split; [intros f toks; apply help_lenient_good|].
+  intros Hc. exact (cfg_wf_help_options cfg a Hb Hc Hw).
+Qed.
+Print Assumptions well_formed_configuration.
+
+(* THE PAGE, for every line (since fix 488171f).  help_choice ds toks = the first default sub-command that parses the
+   line under its own leniency, else the first one; None when there is none - then the page is b's own. *)
+Theorem help_switch_anywhere_prints_the_page : forall cfg a debug path rest sw b p,
+  build_app cfg = Ok a -> default_help_config cfg = true -> cfg_wf cfg = true ->
   forallb lead_ok path = true -> path <> [] ->
   (match path with t :: _ => str_eqb t S_help = false | [] => True end) ->
-  sw = T_help \/ sw = T_h -> In sw (option_tokens rest) -> no_version_spelling (option_tokens rest) = true ->
-  starts_stopped rest = true ->
-  walk (named_of (ap_cmds a)) None path = Ok (Some (b, p)) -> defaults_of (b_subs b) = [] ->
+  sw = T_help \/ sw = T_h -> In sw (option_tokens rest) -> starts_stopped rest = true ->
+  walk (named_of (ap_cmds a)) None path = Ok (Some (b, p)) ->
+  probes_quietly (defaults_of (b_subs b)) (path ++ rest) ->
+  help_target a (path ++ rest) =
+    Ok (match help_choice (defaults_of (b_subs b)) (path ++ rest) with Some d => p ++ [b_name d] | None => p end) /\
   sm_action (run_summary debug a (path ++ rest)) =
     match help_line_parse a (path ++ rest) with
     | Err k => AError k
-    | Ok _ => match parse (b_fmt b) true (path ++ rest) with Ok _ => AHelpCmd p | Err k => AHelpFail k end
+    | Ok (fx, x) =>
+      if args_is_option_set fx x S_version || wants_version (option_tokens rest) then AVersion [S_help]
+      else AHelpCmd (match help_choice (defaults_of (b_subs b)) (path ++ rest) with Some d => p ++ [b_name d] | None => p end)
     end.
 Proof.
-  intros cfg a debug path rest sw b p Hb Hc Hv Hp Hn Hh Hs Hin Hno Hst Hw Hd.
-  exact (help_anywhere_closed_that_command cfg a debug path rest Hb Hc Hv Hp Hn Hh (wants_help_in sw _ Hs Hin) Hno b p Hst Hw Hd).
+  intros cfg a debug path rest sw b p Hb Hc Hwf Hp Hn Hh Hs Hin Hst Hw Hq. pose proof (wants_help_in sw _ Hs Hin) as Hwh. split.
+  - exact (help_target_total cfg a path rest Hb Hwf Hp Hn Hh Hst b p Hw Hq).
+  - exact (help_anywhere_total cfg a debug path rest Hb Hc Hwf Hp Hn Hh Hwh Hst b p Hw Hq).
+Qed.
+Print Assumptions help_switch_anywhere_prints_the_page.
+(* "prints that command's help, status 0, without invoking the handler": the command the path names has no default
+   sub-command, no token spells the version option, the help command's own parse does not fail (it cannot with
+   DefaultApplicationConfig's global options) - and NOTHING about the rest of the line *)
+Theorem help_switch_anywhere_closed_form : forall cfg a debug path rest sw b p,
+  build_app cfg = Ok a -> default_help_config cfg = true -> cfg_wf cfg = true -> defines_version cfg = true ->
+  forallb lead_ok path = true -> path <> [] ->
+  (match path with t :: _ => str_eqb t S_help = false | [] => True end) ->
+  sw = T_help \/ sw = T_h -> In sw (option_tokens rest) -> no_version_spelling (option_tokens rest) = true ->
+  starts_stopped rest = true -> (forall k, help_line_parse a (path ++ rest) <> Err k) ->
+  walk (named_of (ap_cmds a)) None path = Ok (Some (b, p)) -> defaults_of (b_subs b) = [] ->
+  sm_action (run_summary debug a (path ++ rest)) = AHelpCmd p /\
+  prints_page (sm_action (run_summary debug a (path ++ rest))) = true.
+Proof.
+  intros cfg a debug path rest sw b p Hb Hc Hwf Hv Hp Hn Hh Hs Hin Hno Hst Hok Hw Hd.
+  exact (help_anywhere_total_that_command cfg a debug path rest Hb Hc Hwf Hp Hn Hh (wants_help_in sw _ Hs Hin) Hst b p Hw Hd Hv Hno Hok).
 Qed.
 Print Assumptions help_switch_anywhere_closed_form.
+(* ... with default sub-commands: the page of the one help_choice names *)
+Theorem help_switch_anywhere_closed_form_default_sub_commands : forall cfg a debug path rest sw b p,
+  build_app cfg = Ok a -> default_help_config cfg = true -> cfg_wf cfg = true -> defines_version cfg = true ->
+  forallb lead_ok path = true -> path <> [] ->
+  (match path with t :: _ => str_eqb t S_help = false | [] => True end) ->
+  sw = T_help \/ sw = T_h -> In sw (option_tokens rest) -> no_version_spelling (option_tokens rest) = true ->
+  starts_stopped rest = true -> (forall k, help_line_parse a (path ++ rest) <> Err k) ->
+  walk (named_of (ap_cmds a)) None path = Ok (Some (b, p)) ->
+  probes_quietly (defaults_of (b_subs b)) (path ++ rest) ->
+  sm_action (run_summary debug a (path ++ rest)) =
+    AHelpCmd (match help_choice (defaults_of (b_subs b)) (path ++ rest) with Some d => p ++ [b_name d] | None => p end).
+Proof.
+  intros cfg a debug path rest sw b p Hb Hc Hwf Hv Hp Hn Hh Hs Hin Hno Hst Hok Hw Hq.
+  exact (help_anywhere_total_closed cfg a debug path rest Hb Hc Hwf Hp Hn Hh (wants_help_in sw _ Hs Hin) Hst b p Hw Hv Hno Hq Hok).
+Qed.
+Print Assumptions help_switch_anywhere_closed_form_default_sub_commands.
+(* the switch INSERTED at any position of a line before its first "--" (between an option and its value included):
+   the page of the help target of the line as it then stands.  Nothing is asked of l1 ++ l2. *)
+Theorem help_switch_inserted_at_any_position : forall cfg a debug l1 sw l2 b p,
+  build_app cfg = Ok a -> default_help_config cfg = true -> cfg_wf cfg = true -> defines_version cfg = true ->
+  no_ddash l1 = true -> sw = T_help \/ sw = T_h ->
+  (match leading l1 with t :: _ => str_eqb t S_help = false | [] => False end) ->
+  no_version_spelling (option_tokens (l1 ++ sw :: l2)) = true ->
+  (forall k, help_line_parse a (l1 ++ sw :: l2) <> Err k) ->
+  walk (named_of (ap_cmds a)) None (leading l1) = Ok (Some (b, p)) ->
+  probes_quietly (defaults_of (b_subs b)) (l1 ++ sw :: l2) ->
+  sm_action (run_summary debug a (l1 ++ sw :: l2)) =
+    AHelpCmd (match help_choice (defaults_of (b_subs b)) (l1 ++ sw :: l2) with Some d => p ++ [b_name d] | None => p end).
+Proof. exact help_inserted_total. Qed.
+Print Assumptions help_switch_inserted_at_any_position.
+
+(* Lines WITHOUT a leading plain token.  A line of option-like tokens only ("-h", "-q --help -vv"): no positional is
+   read, the help command's argument "command" stays unset, the APPLICATION page is printed (or name and version; or the
+   value error of a global option).  In general (leading toks = []: "-h cmd", "-q -h srv x") the handler asks
+   HelpResolver only when the parse set "command", and the resolver, finding no leading token, explains one of the
+   application's DEFAULT commands - with DefaultApplicationConfig the help command itself. *)
+Theorem help_switch_alone_prints_the_application_page : forall cfg a debug toks,
+  build_app cfg = Ok a -> default_help_config cfg = true -> wants_help (option_tokens toks) = true ->
+  Forall (fun t => optlike t = true) toks ->
+  sm_action (run_summary debug a toks) =
+    match help_line_parse a toks with
+    | Err k => AError k
+    | Ok (fx, x) => if args_is_option_set fx x S_version || wants_version (option_tokens toks) then AVersion [S_help] else AHelpApp
+    end.
+Proof. exact help_options_only. Qed.
+Print Assumptions help_switch_alone_prints_the_application_page.
+Theorem help_switch_without_a_path : forall (a : application) debug toks,
+  wants_help (option_tokens toks) = true -> leading toks = [] ->
+  sm_action (run_summary debug a toks) =
+    match help_line_parse a toks with
+    | Err k => AError k
+    | Ok (fx, x) =>
+      if args_is_option_set fx x S_version || wants_version (option_tokens toks) then AVersion [S_help]
+      else if args_is_argument_set fx x (AName HelpRunLemmas.COMMAND) then
+        match (do d <- help_pick_default (defaults_of (ap_cmds a)) toks None;
+               match d with
+               | Some (dc, _) => do _ <- help_lenient (b_fmt dc) toks; Ok [b_name dc]
+               | None => Err CannotResolve
+               end) with Ok p => AHelpCmd p | Err k => AHelpFail k end
+      else AHelpApp
+    end.
+Proof. intros a debug toks Hs Hl. exact (help_no_path_run a debug toks Hs Hl). Qed.
+Print Assumptions help_switch_without_a_path.
 
 Theorem version_switch : forall debug a toks path f x,
   wants_help (option_tokens toks) = false -> resolve a toks = Ok (path, f, x) ->
@@ -539,21 +648,48 @@ Example anywhere_needs_no_version_switch :
   wants_version (option_tokens [T_ddV; T_h]) = false /\ act2 [SRV; T_ddV; T_h] = Some (AVersion [S_help]).
 Proof. vm_compute. repeat split. Qed.
 
-(* REFUTED: "a valid line with the help switch inserted somewhere behind the path prints the help with status 0".
-   "cmd --name foo a" is valid (the handler of cmd runs: name = foo, a1 = a); with "--help" between the option and its
-   value the option takes its default, "foo" and "a" move to a1 and a2, and a2 is an integer: the lenient parse of the
-   command picked raises a value error, which leniency does not swallow.  The real code does the same (status 1, a
-   ValueError report; replayed, notes/w2-c09c03.md): a defect against the property text. *)
-Theorem help_switch_between_option_and_value_fails_refuted : exists cfg a path rest1 rest2,
-  build_app cfg = Ok a /\ default_help_config cfg = true /\ forallb lead_ok path = true /\
-  sm_action (run_summary false a (path ++ rest1 ++ rest2)) = AHandler path /\
-  sm_action (run_summary false a (path ++ rest1 ++ rest2 ++ [T_help])) = AHelpCmd path /\
-  sm_action (run_summary false a (path ++ rest1 ++ T_help :: rest2)) = AHelpFail ValueError.
-Proof.
-  destruct (build_app cfg2) as [a|k] eqn:E; [|vm_compute in E; discriminate].
-  exists cfg2, a, [CMD], [T_name], [FOO; LA]. vm_compute in E. inversion E; subst a. vm_compute. repeat split.
-Qed.
-Print Assumptions help_switch_between_option_and_value_fails_refuted.
+(* REPAIRED (fix 488171f; found by this development as help_switch_between_option_and_value_fails_refuted): "cmd --name foo a"
+   is valid (the handler of cmd runs: name = foo, a1 = a); with "--help" between the option and its value the option takes
+   its default, "foo" and "a" move to a1 and a2, and a2 is an integer.  BEFORE the repair the lenient parse of the command
+   picked raised that value error and the run ended with status 1 and a ValueError report (the model before the repair:
+   HelpAnywhereTotalLemmas.help_target_before_the_repair); now the page of cmd is printed at every position of the switch
+   (an instance of help_switch_inserted_at_any_position; the real code: replayed, notes/w2-c09c03.md). *)
+Example help_switch_between_option_and_value_fails_before_the_repair :
+  match build_app cfg2 with
+  | Ok a => sm_action (run_summary false a [CMD; T_name; FOO; LA]) = AHandler [CMD] /\
+            help_target_before_the_repair a [CMD; T_name; T_help; FOO; LA] = Err ValueError /\
+            help_target a [CMD; T_name; T_help; FOO; LA] = Ok [CMD]
+  | Err _ => False end.
+Proof. vm_compute. repeat split. Qed.
+Example help_switch_between_option_and_value_prints_the_page :
+  act2 [CMD; T_help; T_name; FOO; LA] = Some (AHelpCmd [CMD]) /\ act2 [CMD; T_name; T_help; FOO; LA] = Some (AHelpCmd [CMD]) /\
+  act2 [CMD; T_name; FOO; T_h; LA] = Some (AHelpCmd [CMD]) /\ act2 [CMD; T_name; FOO; LA; T_help] = Some (AHelpCmd [CMD]).
+Proof. vm_compute. repeat split. Qed.
+(* every hypothesis of help_switch_inserted_at_any_position holds for that line *)
+Example help_switch_inserted_hypotheses_hold :
+  match build_app cfg2 with
+  | Ok a =>
+    let l1 := [CMD; T_name] in let l2 := [FOO; LA] in
+    default_help_config cfg2 = true /\ cfg_wf cfg2 = true /\ defines_version cfg2 = true /\ no_ddash l1 = true /\
+    leading l1 = [CMD] /\ str_eqb CMD S_help = false /\ no_version_spelling (option_tokens (l1 ++ T_help :: l2)) = true /\
+    match help_line_parse a (l1 ++ T_help :: l2) with Ok _ => True | Err _ => False end /\
+    match walk (named_of (ap_cmds a)) None (leading l1) with
+    | Ok (Some (b, p)) => p = [CMD] /\ defaults_of (b_subs b) = []
+    | _ => False end
+  | Err _ => False end.
+Proof. vm_compute. repeat split. Qed.
+(* probes_quietly is needed: a default sub-command probed strictly that meets an unknown option ends the help resolution
+   (NoSuchOptionException leaves the probe at once, as in DefaultResolver) *)
+Definition T_zz : str := [45;45;122;122]%N.                                  (* --zz *)
+Example anywhere_strict_default_unknown_option :
+  cfg_wf cfg2 = true /\ act2 [SRV; T_zz; T_h] = Some (AHelpFail NoSuchOption) /\ act2 [CMD; T_zz; T_h] = Some (AHelpCmd [CMD]).
+Proof. vm_compute. repeat split. Qed.
+(* lines without a leading plain token *)
+Example no_path_lines :
+  act2 [T_h] = Some AHelpApp /\ act2 [T_q; T_help; T_vv] = Some AHelpApp /\ Forall (fun t => optlike t = true) [T_q; T_help; T_vv] /\
+  act2 [T_q; T_h; SRV] = Some (AHelpCmd [S_help]) /\ leading [T_q; T_h; SRV] = [].
+Proof. vm_compute. repeat split; repeat constructor. Qed.
+
 (* REFUTED: "the page printed is that of the command the line without the switch runs".  With two default sub-commands
    the probe "first default that parses the line" sees another line: "srv --name foo a" runs srv x1, and
    "srv --name --help foo a" shows the page of srv x2 (x1 requires a value for --name, x2 does not).  Model = code
